@@ -511,6 +511,15 @@ def suspend_monitor(ctx, info, res):
                 continue
             ctx.event()
             S = info.S[X]
+            # an original aux may be the conditional aux of several frames (never of two frames of one outline): what
+            # it does in this run belongs to the frame M only if M is in the framer's outline before or after the run
+            outl = set()
+            for pp in (prevpost, post):
+                act = (pp or {}).get(X, {}).get("active")
+                if act:
+                    outl.update(S.outline(act))
+            if M not in outl:
+                continue
             was = bool(prevpost and prevpost.get(a, {}).get("actives") and not prevpost[a]["done"] and prevpost[a]["main"] == [X, M])
             now = bool(post.get(a, {}).get("actives") and not post[a]["done"] and post[a]["main"] == [X, M])
             a_idx = [j for j, e in enumerate(evs) if e["framer"] == a]
@@ -603,7 +612,8 @@ def suspend_monitor(ctx, info, res):
                                   s["tick"], X, M, a, left), lambda: {"tick": s["tick"], "aux": a, "main": [X, M]})
                 if not now:
                     cut_seen.pop((X, M, a), None)
-            elif not was and a_enters:
+            elif not was and a_enters and not (prevpost and prevpost.get(a, {}).get("actives") and not prevpost[a]["done"]):
+                # (when the aux was running under another frame at the start of this run its events belong to that frame)
                 # activation: entered and run once in the same run
                 ctx.hit("cond_aux_activations")
                 Sa = info.S[a]
